@@ -61,7 +61,11 @@ pub fn slice_cases(default_mode: &str, cases: &[J], out: &mut Out) {
                         mismatch(out, "as_bytes", case, json!({"v": "bytes", "bytes": proj::bytes(&want)}), json!({"v": "other-bytes", "bytes": proj::bytes(&b)}));
                     }
                 } else if mode == "round" {
-                    for s in SUFFIXES.iter() {
+                    // a few cases also get trailing data that brings the buffer to a multiple of 64 KiB (+-1)
+                    let o = if sh { 16 } else { 0 };
+                    let big: Vec<Vec<u8>> = if out.events % 500 == 3 { [65535usize, 65536, 65536 + o, 65536 + o + 1, 2 * 65536 + o].iter().filter(|t| **t > b.len()).map(|t| vec![0xA5u8; *t - b.len()]).collect() } else { vec![] };
+                    for s in SUFFIXES.iter().map(|s| s.to_vec()).chain(big.into_iter()) {
+                        let s = &s[..];
                         let mut x = b.clone();
                         x.extend_from_slice(s);
                         out.calls += 1;
